@@ -61,6 +61,8 @@ const VALUES: &[&str] = &[
     "18446744073709551616", "1e3", "０", "", "x", "DEFAULT", "SPACE", "UNDEF", "0x10000", "0x0000", "0xFFFF..0x0001", "0x0041..0x10000",
     "0x0041..", "*", "\"", "1 1", "a\tb", "a/b", "+1", " 1", "0x", "0x0x41", "#", "0xFFFFFFFFFFFFFFFF", "0x0..0xFFFFFFFFFFFFFFFF", "0xFFFFFFFFFFFFFFFF..0x0",
     "0x7FFFFFFFFFFFFFFF", "0x10000000000000000", "18446744073709551615", "9223372036854775807", "-9223372036854775808", "4294967295",
+    // cells longer than the 4096-byte buffers of the CSV helpers (plain, and quoted with commas inside)
+    include_str!("long4097.txt"), include_str!("long9000.txt"),
 ];
 // Not in the vocabulary on purpose: i32::MIN / i32::MAX as a bigram.cost value. The i32 accumulators (the raw
 // connector's sum over templates, the Viterbi path cost) are unprotected by design, as in MeCab; costs of that
